@@ -2,6 +2,7 @@ package sim
 
 import (
 	"fmt"
+	"runtime"
 	"runtime/debug"
 	"strings"
 	"sync"
@@ -49,6 +50,12 @@ type Sched struct {
 	// (bubble worlds pass synctest.Wait).
 	Quiesce func()
 	Yields  int
+	// PreemptSites, when set (bubble worlds), makes goroutines that are not sim
+	// threads give up the processor at one in three of the instrumented statements
+	// it accepts: other runnable goroutines of the system run in between.
+	PreemptSites func(site string) bool
+	Preempts     int
+	preemptState uint64
 
 	points   []*Point
 	pointSeq int
@@ -88,7 +95,21 @@ func (s *Sched) park(t *Thread, st tstate, site string) {
 
 func (s *Sched) Yield(site string) {
 	t := s.self()
-	if t == nil || !s.Enabled(site) {
+	if t == nil {
+		// a goroutine of the system itself (bubble worlds): statement-level preemption,
+		// decided by a PRNG of the run that advances in program order
+		if s.PreemptSites != nil && s.PreemptSites(site) {
+			s.preemptState ^= s.preemptState << 13
+			s.preemptState ^= s.preemptState >> 7
+			s.preemptState ^= s.preemptState << 17
+			if s.preemptState%3 == 0 {
+				s.Preempts++
+				runtime.Gosched()
+			}
+		}
+		return
+	}
+	if !s.Enabled(site) {
 		return
 	}
 	s.Yields++
@@ -102,6 +123,9 @@ func (s *Sched) Blocked(site string) {
 	}
 	s.park(t, tBlocked, site)
 }
+
+// SeedPreemption sets the PRNG of PreemptSites (a value drawn from the tape).
+func (s *Sched) SeedPreemption(seed uint64) { s.preemptState = seed*2654435761 + 88172645463325252 }
 
 // Boundary is called by workload code between two operations.
 func (s *Sched) Boundary() {
